@@ -174,4 +174,16 @@ SITES = [
            {_st_s: ('s', 'bytes'), _st_loc[0]: ('result', 'bytes'), _st_loc[1]: ('sh', 'int'), _st_loc[2]: ('i', 'int')},
            consts={'ANSI_TERMINATORS': 'ANSI_TERMINATORS', 'ANSI_ESCAPE_BEGIN': 'ANSI_ESCAPE_BEGIN'},
            const_types={'ANSI_ESCAPE_BEGIN': 'bytes', 'ANSI_TERMINATORS': 'list'}),
+    # wiring of the output channels: which pipes exist, which dispatchers are made, what the child's 1 and 2 are
+    PySite('supervisor/options.py', 'ProcessConfig.make_dispatchers', 'mkdisp',
+           '(redirect : Bool) (stdoutFd stderrFd stdinFd : Option Nat)',
+           {'self.redirect_stderr': ('redirect', 'bool'), 'stdout_fd': ('stdoutFd', 'opt'),
+            'stderr_fd': ('stderrFd', 'opt'), 'stdin_fd': ('stdinFd', 'opt')}),
+    PySite('supervisor/options.py', 'ServerOptions.make_pipes', 'mkpipes',
+           '(useStderr : Bool)', {'stderr': ('useStderr', 'bool')}),
+    PySite('supervisor/process.py', 'Subprocess._prepare_child_fds', 'childfds',
+           '(redirect : Bool) (childStdin childStdout childStderr : Int)',
+           {'self.config.redirect_stderr': ('redirect', 'bool'), "self.pipes['child_stdin']": ('childStdin', 'int'),
+            "self.pipes['child_stdout']": ('childStdout', 'int'), "self.pipes['child_stderr']": ('childStderr', 'int')},
+           calls=('options.dup2',)),
 ]
